@@ -22,7 +22,7 @@ class RadarSession:
         else:
             port = self.srv.port
             self.srv.sock.close()  # nothing listens: radar stays in "Waiting for connection"
-        argv = [os.path.join(binpath, "radar"), "--port", str(port), "--lat", str(lat), "--long", str(lon), "--log-folder", os.path.join(self.scratch, "logs")] + list(opts)
+        argv = [os.path.join(binpath, "radar"), "--port", str(port), f"--lat={lat}", f"--long={lon}", "--log-folder", os.path.join(self.scratch, "logs")] + list(opts)
         self.argv = argv
         self.p = procs.PtyProc(argv, rows=rows, cols=cols, cwd=self.scratch)
         self.events = []
@@ -35,6 +35,8 @@ class RadarSession:
             if self.srv.connections >= 1:
                 return True
             if not self.p.alive():
+                if self.p.p.returncode == 2 and "Usage:" in self.p.raw.decode("utf-8", "replace"):
+                    raise Inconclusive("the driver passed arguments radar's command line rejects")
                 return False
         raise Inconclusive("radar never connected to the feed server")
 
